@@ -114,7 +114,9 @@ def generate(rng, opts):
         }
         ops.append(op)
     # a long-lived process does not clean sys.modules between two loads
-    return {"world": {"modules": modules, "compiled": compiled, "stubs": stubs}, "ops": ops, "cfg": cfg, "keep_modules": rng.random() < 0.4}
+    return {"world": {"modules": modules, "compiled": compiled, "stubs": stubs}, "ops": ops, "cfg": cfg, "keep_modules": rng.random() < 0.4,
+            # the user (or the tool embedding Griffe) already has the package directory on sys.path
+            "sp_on_sys_path": rng.random() < 0.3}
 
 
 # ------------------------------------------------------------------------------------------------
@@ -371,6 +373,8 @@ def execute(plan, ctx):
         old_tempdir = tempfile.tempdir
         os.makedirs(os.path.join(w.root, "tmp"), exist_ok=True)
         tempfile.tempdir = os.path.join(w.root, "tmp")  # temporary Git worktrees (check ops) live under the world root
+        if plan.get("sp_on_sys_path"):
+            sys.path.insert(0, sp)
         orig_path_obj = sys.path
         orig_path = list(sys.path)
         orig_cwd = os.getcwd()
@@ -456,7 +460,7 @@ def execute(plan, ctx):
             _audit["root"] = None
             tempfile.tempdir = old_tempdir
             sys.path = orig_path_obj
-            orig_path_obj[:] = orig_path
+            orig_path_obj[:] = [p_ for p_ in orig_path if not (plan.get("sp_on_sys_path") and p_ == sp)]
             os.chdir(orig_cwd)
             purge_modules(WORLD_TOPS)
             for attr in [a for a in vars(builtins) if a.startswith("_c15_")]:
@@ -509,7 +513,7 @@ def sample_view(plan):
 class _Prop:
     ID = "C15"
     TIERS = {
-        "quick": {"runs": 7_000, "wall": 80, "det_n": 120, "shrink_s": 40},
+        "quick": {"runs": 4_500, "wall": 80, "det_n": 120, "shrink_s": 40},
         "thorough": {"runs": 300_000, "wall": 1100, "det_n": 800, "shrink_s": 120},
     }
     OPTS = {"chunk": 80, "chunk_wall": 300}
